@@ -219,7 +219,11 @@ def channel_phase(ctx, res, values):
                 continue
             if bad:
                 res.violations.append(dict(case={"tokens": line, "origin": "channel"}, what="Channel.send accepted an unsupported value"))
-                ch.receive(10)
+                try:
+                    ch.receive(10)
+                except BaseException as e:  # noqa: BLE001
+                    res.violations[-1]["what"] += "; the peer could not take it: receive of the echo failed with %r" % (e,)
+                    return
                 continue
             try:
                 w = ch.receive(10)
